@@ -170,6 +170,9 @@ func (ex *Exec) Run(st *State) []*State {
 }
 
 func (ex *Exec) fork(st *State) *State {
+	// copy-on-write: after a fork neither side owns the shared objects
+	ex.nextState++
+	st.id = ex.nextState
 	ex.nextState++
 	return st.clone(ex.nextState)
 }
@@ -470,6 +473,30 @@ func (ex *Exec) step(st *State) []*State {
 		p, ok := ex.operand(st, in.Ops[0])
 		if !ok {
 			return nil
+		}
+		if p.Obj != 0 && typeHasPtr(in.Type) {
+			if _, isC := p.Off.ConstU(); !isC && st.Objs[p.Obj].CSize >= 0 {
+				// pointers read at a symbolic offset: split the path per offset so provenance stays exact
+				states, vals := ex.concretize(st, p.Off, 64, "offset of a pointer load")
+				var extra []*State
+				for i, s := range states {
+					pp := Val{E: c.BV(64, s.Objs[p.Obj].Base+vals[i]), Obj: p.Obj, Off: c.BV(64, vals[i])}
+					v, ok := ex.Load(s, pp, in.Type, "load")
+					if !ok {
+						if s.Term == Running {
+							s.Term = TermAbort
+							s.TermMsg = "load failed (fault recorded)"
+						}
+					} else {
+						s.top().Regs[in.ID] = v
+						s.top().PC++
+					}
+					if s != st {
+						extra = append(extra, s)
+					}
+				}
+				return extra
+			}
 		}
 		v, ok := ex.Load(st, p, in.Type, "load")
 		if !ok {
@@ -1147,4 +1174,31 @@ func insertAgg(agg, v Val, idx []uint32) Val {
 		n.Agg[idx[0]] = insertAgg(agg.Agg[idx[0]], v, idx[1:])
 	}
 	return n
+}
+
+// Fork makes an independent copy of a state (harness helper).
+func (ex *Exec) Fork(st *State) *State { return ex.fork(st) }
+
+// GlobalObject materialises the object of a named global (harness helper).
+func (ex *Exec) GlobalObject(st *State, name string) *Object { return ex.globalObj(st, name) }
+
+// Concretize is the exported form of concretize for harness-side stubs.
+func (ex *Exec) Concretize(st *State, e *smt.Expr, max int, what string) ([]*State, []uint64) {
+	return ex.concretize(st, e, max, what)
+}
+
+func typeHasPtr(t *llread.Type) bool {
+	switch t.Kind {
+	case llread.TPtr:
+		return true
+	case llread.TStruct:
+		for _, f := range t.Fields {
+			if typeHasPtr(f) {
+				return true
+			}
+		}
+	case llread.TArray:
+		return typeHasPtr(t.Elem)
+	}
+	return false
 }
